@@ -48,7 +48,7 @@ BUDGET_S = {"quick": 70, "thorough": 1200}
 CHUNK = 200
 
 CHECK_ON = {"CALL": icontract.InvariantCheckEvent.CALL, "SETATTR": icontract.InvariantCheckEvent.SETATTR, "ALL": icontract.InvariantCheckEvent.ALL}
-DUNDERS = ["__len__", "__call__", "__getitem__", "__str__"]
+DUNDERS = ["__len__", "__call__", "__getitem__", "__str__", "__eq__", "__hash__", "__iter__", "__contains__", "__bool__", "__enter__", "__lt__"]
 
 
 # -------------------------------------------------------------------------------------------------
@@ -87,8 +87,23 @@ def build_class(run, cs):
         elif k == "amethod":
             ns[mn] = mk_method(mn, is_async=True)
         elif k == "dunder":
-            ret = {"__len__": lambda r: 3, "__str__": lambda r: "str", "__call__": None, "__getitem__": None}[mn]
+            ret = {
+                "__len__": lambda r: 3,
+                "__str__": lambda r: "str",
+                "__call__": None,
+                "__getitem__": None,
+                "__eq__": lambda r: True,
+                "__lt__": lambda r: False,
+                "__hash__": lambda r: 7,
+                "__iter__": lambda r: iter(()),
+                "__contains__": lambda r: True,
+                "__bool__": lambda r: True,
+                "__enter__": None,
+            }[mn]
             ns[mn] = mk_method(mn, ret=ret)
+            if mn == "__enter__":
+                ex = mk_method("__exit__", ret=lambda r: False)
+                ns["__exit__"] = ex
         elif k == "static":
 
             def sraw(*a):
@@ -365,6 +380,9 @@ def generate(r, tier):
         if r.random() < 0.5 and classes_shape[0] != "listlike":
             d = r.choice(DUNDERS)
             c["members"].append({"name": d, "kind": "dunder"})
+            if d == "__eq__":
+                # Python sets __hash__ to None in a class that defines __eq__ alone; define both, as real classes do
+                c["members"].append({"name": "__hash__", "kind": "dunder"})
         # overriding a base member
         return c
 
@@ -559,6 +577,25 @@ def _resolve_c03(run, scn):
                 return (lambda: str(obj)), unit, td["obj"]
             if fn == "__call__":
                 return (lambda: obj(tx.t)), unit, td["obj"]
+            if fn == "__eq__":
+                return (lambda: obj == 1), unit, td["obj"]
+            if fn == "__lt__":
+                return (lambda: obj < 1), unit, td["obj"]
+            if fn == "__hash__":
+                return (lambda: hash(obj)), unit, td["obj"]
+            if fn == "__iter__":
+                return (lambda: iter(obj)), unit, td["obj"]
+            if fn == "__contains__":
+                return (lambda: 1 in obj), unit, td["obj"]
+            if fn == "__bool__":
+                return (lambda: bool(obj)), unit, td["obj"]
+            if fn == "__enter__":
+
+                def with_():
+                    with obj:
+                        pass
+
+                return with_, unit, td["obj"]
             if fn == "__getitem__":
                 return (lambda: obj[0]) if not isinstance(obj, tuple) else (lambda: type(obj).__getitem__(obj, 0)), unit, td["obj"]
             return (lambda: getattr(obj, fn)(tx.t)), unit, td["obj"]
